@@ -115,7 +115,7 @@ def prove(cfg, tier, work):
         if rc != 0:
             res['ok'] = False
             res['errors'] += first_error_theorems(out) or [out[-1500:]]
-        rc2, out2 = lake(['build', 'drv-' + cfg['driver']])
+        rc2, out2 = lake(['build', 'drv-' + cfg['driver']] + ['drv-' + e['driver'] for e in cfg.get('extra', [])])
         if rc2 != 0:
             res['driver_ok'] = False
             res['errors'] += ['modeldrv: ' + e for e in (first_error_theorems(out2) or [out2[-800:]])]
@@ -378,10 +378,15 @@ def run_check(prop, tier, seed, replay=None):
     if replay:
         replay_payload = json.load(open(replay))
 
-    def one_round(tag, r_tier, r_seed, rops):
+    def one_round(tag, r_tier, r_seed, rops, sub=None, sub_bin=None):
         w = os.path.join(work, tag)
         os.makedirs(w, exist_ok=True)
-        h = run_harness(cfg, binp, r_tier, r_seed, w, rops)
+        if sub is not None:
+            scfg = {'driver': sub['driver'], 'harness': sub['harness']}
+            h = run_harness(scfg, sub_bin, r_tier, r_seed, w, rops)
+        else:
+            scfg = cfg
+            h = run_harness(cfg, binp, r_tier, r_seed, w, rops)
         err = None
         if h['rc'] != 0:
             err = 'harness exited with %d: %s' % (h['rc'], h['stderr'][-1500:])
@@ -393,10 +398,11 @@ def run_check(prop, tier, seed, replay=None):
                 st = {}
         c = None
         if pres['driver_ok'] and os.path.exists(os.path.join(h['out'], 'ops.txt')):
-            c = correspond(cfg, h, w)
+            c = correspond(scfg, h, w)
         return h, c, oracle_failures(h, prop), st, err
 
     corpus_round = None
+    extra_used = [None]
     if binp:
         rops = None
         if replay_payload is not None:
@@ -415,8 +421,34 @@ def run_check(prop, tier, seed, replay=None):
                     lines.append('case 0 corpus:' + os.path.basename(cf))
                 lines += body
             corpus_round = one_round('corpus', tier, seed, lines)
-        hres, cres, fails, stats, harness_err2 = one_round('main', tier, seed, rops)
+        main_rops = rops
+        if replay_payload is not None and replay_payload.get('extra_harness') is not None:
+            main_rops = ['case 0 skipped-main-harness']   # the replay belongs to an extra harness
+        hres, cres, fails, stats, harness_err2 = one_round('main', tier, seed, main_rops)
         harness_err = harness_err or harness_err2
+        # further harnesses of the same property (e.g. C05 behind the prefetching wrapper = the Wrap harness)
+        main_hres = hres
+        for xi, ex in enumerate(cfg.get('extra', [])):
+            want = replay_payload.get('extra_harness') if replay_payload is not None else None
+            if replay_payload is not None and want != xi:
+                continue
+            try:
+                xbin = harness_binary(ex['harness'])
+            except build.BuildError as e:
+                harness_err = harness_err or 'extra harness build failed: %s\n%s' % (e, e.log[-1500:])
+                continue
+            xh, xc, xf, xst, xerr = one_round('extra%d' % xi, tier, seed, rops if want == xi else None, ex, xbin)
+            stats['cases'] = int(stats.get('cases', 0)) + int(xst.get('cases', 0))
+            stats['ops'] = int(stats.get('ops', 0)) + int(xst.get('ops', 0))
+            stats['distinct_nontrivial'] = int(stats.get('distinct_nontrivial', 0)) + int(xst.get('distinct_nontrivial', 0))
+            stats.setdefault('extra', {})['extra_harness_%s_cases' % ex['harness']['name']] = int(xst.get('cases', 0))
+            if xf or xerr or (xc is not None and not xc['ok']):
+                if not fails and not harness_err and (cres is None or cres['ok']):
+                    hres, cres, fails, harness_err = xh, xc, xf, xerr
+                    extra_used[0] = (xi, ex, xbin)
+                    notes.append('failure came from the extra harness %s' % ex['harness']['name'])
+        if replay_payload is not None and replay_payload.get('extra_harness') is not None:
+            pass
         if corpus_round is not None:
             ch, cc, cf_, cst, cerr = corpus_round
             stats['corpus_cases'] = cst.get('cases', 0)
@@ -462,7 +494,7 @@ def run_check(prop, tier, seed, replay=None):
         seen_cases.add(f['case'])
         co = case_ops(hres, f['case'])
         ops = co['ops']
-        if cfg.get('shrink', True) and len(ops) > 1 and binp:
+        if cfg.get('shrink', True) and len(ops) > 1 and binp and extra_used[0] is None:
             def still(cand, _cls=f['class']):
                 w2 = os.path.join(work, 'shrink')
                 os.makedirs(w2, exist_ok=True)
@@ -472,9 +504,12 @@ def run_check(prop, tier, seed, replay=None):
                 ops = shrink_ops(cfg, binp, work, prop, co['header'], ops, still)
             except Exception as e:  # shrinking is best effort
                 notes.append('shrink failed: %r' % e)
-        add_violation({'property': prop, 'kind': 'counterexample', 'header': co['header'], 'ops': ops,
-                       'violated': f['msg'], 'class': f['class'], 'seed': seed, 'tier': tier,
-                       'impl': co['impl'][:50]})
+        payload = {'property': prop, 'kind': 'counterexample', 'header': co['header'], 'ops': ops,
+                   'violated': f['msg'], 'class': f['class'], 'seed': seed, 'tier': tier,
+                   'impl': co['impl'][:50]}
+        if extra_used[0] is not None:
+            payload['extra_harness'] = extra_used[0][0]
+        add_violation(payload)
     if harness_err and hres is not None and hres['rc'] != 0 and not new_fails:
         # a crash / sanitizer abort of the implementation under the harness is a failing input
         last = None
@@ -564,15 +599,16 @@ def setup():
     with Lock('lake'):
         translate.run()
         targets = sorted(set(m for c in props.values() for m in c['props_modules']) |
-                         set('drv-' + c['driver'] for c in props.values()))
+                         set('drv-' + c['driver'] for c in props.values()) |
+                         set('drv-' + e['driver'] for c in props.values() for e in c.get('extra', [])))
         rc, out = lake(['build'] + targets)
     if rc != 0:
         log(out[-3000:])
         log('setup: lake build failed')
         return 1
     seen = set()
-    for prop, cfg in props.items():
-        hc = cfg['harness']
+    all_h = [cfg['harness'] for cfg in props.values()] + [e['harness'] for cfg in props.values() for e in cfg.get('extra', [])]
+    for hc in all_h:
         key = (hc['name'], tuple(hc.get('srcs', ())), tuple(hc.get('flags', ())))
         if key in seen:
             continue
